@@ -77,8 +77,8 @@ type Parser struct {
 	GrammarJSON string
 	GrammarText string
 	Flags       []string
-	Has         map[string]bool     // option constructors present in this template variant
-	Prebuild    func(keys []string) // builds the shared Option values (driver goroutine, before clients start)
+	Has         map[string]bool                 // option constructors present in this template variant
+	Prebuild    func(keys []string)             // builds the shared Option values (driver goroutine, before clients start)
 	PrepFile    func(name string, input []byte) // writes the file that ParseFile calls with FilePrepared read
 	Parse       func(filename string, input []byte, o *Opts, ctx *kernel.Ctx) (val any, err error, esc any, cnt uint64)
 	Inspect     func(err error) (bool, []ErrElem)
